@@ -7,13 +7,14 @@ namespace MitmVerif.C53
 /-! ### start_replay touches neither the playback loop nor the log -/
 
 theorem startOne_frame (s : St) (i : Nat) :
-    (startOne s i).inflight = s.inflight ∧ (startOne s i).log = s.log ∧ (startOne s i).attrs = s.attrs := by
+    (startOne s i).inflight = s.inflight ∧ (startOne s i).log = s.log ∧ (startOne s i).attrs = s.attrs ∧
+    (startOne s i).glog = s.glog ∧ (startOne s i).bg = s.bg := by
   unfold startOne prepare
   split <;> (try split) <;> simp
 
 theorem startReplay_frame : ∀ (idxs : List Nat) (s : St),
     (startReplay s idxs).inflight = s.inflight ∧ (startReplay s idxs).log = s.log ∧
-    (startReplay s idxs).attrs = s.attrs := by
+    (startReplay s idxs).attrs = s.attrs ∧ (startReplay s idxs).glog = s.glog ∧ (startReplay s idxs).bg = s.bg := by
   intro idxs
   induction idxs with
   | nil => intro s; simp [startReplay]
@@ -22,7 +23,8 @@ theorem startReplay_frame : ∀ (idxs : List Nat) (s : St),
     have h1 := startOne_frame s i
     have h2 := ih (startOne s i)
     simp only [startReplay, List.foldl_cons] at h2 ⊢
-    exact ⟨h2.1.trans h1.1, h2.2.1.trans h1.2.1, h2.2.2.trans h1.2.2⟩
+    exact ⟨h2.1.trans h1.1, h2.2.1.trans h1.2.1, h2.2.2.1.trans h1.2.2.1, h2.2.2.2.1.trans h1.2.2.2.1,
+      h2.2.2.2.2.trans h1.2.2.2.2⟩
 
 /-- lifting a step-invariant through start_replay's loop -/
 theorem startReplay_ind (P : St → Prop) (hstep : ∀ s i, P s → P (startOne s i)) :
@@ -442,6 +444,166 @@ theorem revertAll_restores : ∀ (idxs : List Nat) (fs : List FState) (i : Nat) 
       have := ih (revert fs j) i f b hmem this hb
       simpa [revertAll] using this
 
+/-! ### both modes: the option is read at dispatch time -/
+
+/-- while a replay that was started with the option at 1 is running, nothing else is started -/
+def GSeqInv (s : St) : Prop := seqStatus s.glog = some (openTicket s)
+
+theorem GSeqInv.pres {s s' : St} {o : Op} (hi : GSeqInv s) (h : step s o = some s') : GSeqInv s' := by
+  unfold GSeqInv openTicket at hi ⊢
+  cases o with
+  | start idxs =>
+    simp only [MitmVerif.C53.step, Option.some.injEq] at h; subst h
+    have := startReplay_frame idxs s
+    rw [this.1, this.2.2.2.1]; exact hi
+  | stop =>
+    simp only [MitmVerif.C53.step] at h
+    split at h
+    · simp at h
+    · simp only [Option.some.injEq] at h; subst h; exact hi
+  | edit i => simp only [MitmVerif.C53.step, Option.some.injEq] at h; subst h; exact hi
+  | setopt b => simp only [MitmVerif.C53.step, Option.some.injEq] at h; subst h; exact hi
+  | take =>
+    simp only [MitmVerif.C53.step] at h
+    split at h
+    · rename_i e rest hinf hq
+      simp only [hinf, Option.map_none] at hi
+      split at h
+      · simp only [Option.some.injEq] at h; subst h
+        simp [seqStatus, hi]
+      · simp only [Option.some.injEq] at h; subst h
+        simp [seqStatus, hi, hinf]
+    · simp at h
+  | send =>
+    simp only [MitmVerif.C53.step] at h
+    split at h
+    · rename_i e hinf
+      simp only [Option.some.injEq] at h; subst h
+      simp only [hinf, Option.map_some] at hi
+      simpa using hi
+    · simp at h
+  | finish r =>
+    simp only [MitmVerif.C53.step] at h
+    split at h
+    · rename_i e ph hinf
+      simp only [Option.some.injEq] at h; subst h
+      simp only [hinf, Option.map_some] at hi
+      simp [seqStatus, hi]
+    · simp at h
+  | bsend t =>
+    simp only [MitmVerif.C53.step] at h
+    split at h
+    · simp only [Option.some.injEq] at h; subst h; exact hi
+    · simp at h
+  | bfinish t r =>
+    simp only [MitmVerif.C53.step] at h
+    split at h
+    · simp only [Option.some.injEq] at h; subst h
+      cases hinf : s.inflight with
+      | none => simp only [hinf, Option.map_none] at hi; simp [seqStatus, hi]
+      | some p => simp only [hinf, Option.map_some] at hi; simp [seqStatus, hi]
+    · simp at h
+
+/-- every replay that was ever started has finished, is the one the loop awaits, or runs in the background -/
+def GClosed (s : St) : Prop :=
+  ∀ t ∈ gstartTickets s.glog, t ∈ gfinTickets s.glog ∨ openTicket s = some t ∨ t ∈ s.bg.map (·.1.ticket)
+
+theorem markSent_ticket (t : Nat) (l : List (Entry × Phase)) :
+    (l.map (markSent t)).map (·.1.ticket) = l.map (·.1.ticket) := by
+  induction l with
+  | nil => rfl
+  | cons p ps ih =>
+    simp only [List.map_cons, ih]
+    congr 1
+    unfold markSent; split <;> rfl
+
+theorem GClosed.pres {s s' : St} {o : Op} (hi : GClosed s) (h : step s o = some s') : GClosed s' := by
+  unfold GClosed openTicket at hi ⊢
+  cases o with
+  | start idxs =>
+    simp only [MitmVerif.C53.step, Option.some.injEq] at h; subst h
+    have := startReplay_frame idxs s
+    rw [this.1, this.2.2.2.1, this.2.2.2.2]; exact hi
+  | stop =>
+    simp only [MitmVerif.C53.step] at h
+    split at h
+    · simp at h
+    · simp only [Option.some.injEq] at h; subst h; exact hi
+  | edit i => simp only [MitmVerif.C53.step, Option.some.injEq] at h; subst h; exact hi
+  | setopt b => simp only [MitmVerif.C53.step, Option.some.injEq] at h; subst h; exact hi
+  | take =>
+    simp only [MitmVerif.C53.step] at h
+    split at h
+    · rename_i e rest hinf hq
+      split at h
+      · simp only [Option.some.injEq] at h; subst h
+        intro t ht
+        simp only [gstartTickets, List.mem_cons] at ht
+        rcases ht with rfl | ht
+        · right; left; rfl
+        · rcases hi t ht with h1 | h1 | h1
+          · left; simpa [gfinTickets] using h1
+          · simp [hinf] at h1
+          · right; right; exact h1
+      · simp only [Option.some.injEq] at h; subst h
+        intro t ht
+        simp only [gstartTickets, List.mem_cons] at ht
+        rcases ht with rfl | ht
+        · right; right; simp
+        · rcases hi t ht with h1 | h1 | h1
+          · left; simpa [gfinTickets] using h1
+          · simp [hinf] at h1
+          · right; right; simp only [List.map_append, List.mem_append]; exact Or.inl h1
+    · simp at h
+  | send =>
+    simp only [MitmVerif.C53.step] at h
+    split at h
+    · rename_i e hinf
+      simp only [Option.some.injEq] at h; subst h
+      intro t ht
+      rcases hi t ht with h1 | h1 | h1
+      · exact Or.inl h1
+      · right; left; simpa [hinf] using h1
+      · exact Or.inr (Or.inr h1)
+    · simp at h
+  | finish r =>
+    simp only [MitmVerif.C53.step] at h
+    split at h
+    · rename_i e ph hinf
+      simp only [Option.some.injEq] at h; subst h
+      intro t ht
+      simp only [gstartTickets] at ht
+      rcases hi t ht with h1 | h1 | h1
+      · left; simp [gfinTickets, h1]
+      · left; simp [hinf] at h1; simp [gfinTickets, h1]
+      · exact Or.inr (Or.inr h1)
+    · simp at h
+  | bsend t0 =>
+    simp only [MitmVerif.C53.step] at h
+    split at h
+    · simp only [Option.some.injEq] at h; subst h
+      intro t ht
+      rcases hi t ht with h1 | h1 | h1
+      · exact Or.inl h1
+      · exact Or.inr (Or.inl h1)
+      · right; right; show t ∈ (s.bg.map (markSent t0)).map (·.1.ticket); rw [markSent_ticket]; exact h1
+    · simp at h
+  | bfinish t0 r =>
+    simp only [MitmVerif.C53.step] at h
+    split at h
+    · simp only [Option.some.injEq] at h; subst h
+      intro t ht
+      simp only [gstartTickets] at ht
+      rcases hi t ht with h1 | h1 | h1
+      · left; simp [gfinTickets, h1]
+      · exact Or.inr (Or.inl h1)
+      · by_cases htt : t = t0
+        · left; simp [gfinTickets, htt]
+        · right; right
+          obtain ⟨p, hp, rfl⟩ := List.mem_map.mp h1
+          exact List.mem_map.mpr ⟨p, List.mem_filter.mpr ⟨hp, by simpa using htt⟩, rfl⟩
+    · simp at h
+
 /-! ### everything together -/
 
 structure Inv (s : St) : Prop where
@@ -449,6 +611,8 @@ structure Inv (s : St) : Prop where
   ord : OrdInv s
   repl : ReplInv s
   back : BackInv s
+  gseq : GSeqInv s
+  gclosed : GClosed s
 
 theorem init_inv (attrs : List Attr) (fs : List FState) : Inv (init attrs fs) := by
   refine ⟨by simp [SeqInv, init, logStatus, statusOf], ⟨?_, ?_, ?_, ?_, ?_⟩, ?_, ?_⟩ <;>
@@ -465,7 +629,8 @@ theorem Inv.presRun : ∀ (os : List Op) (s s' : St), Inv s → MitmVerif.C53.ru
     | none => simp [hs] at h
     | some s1 =>
       simp only [hs] at h
-      exact ih s1 s' ⟨hi.seq.pres hs, hi.ord.pres hs, hi.repl.pres hs, hi.back.pres hs⟩ h
+      exact ih s1 s' ⟨hi.seq.pres hs, hi.ord.pres hs, hi.repl.pres hs, hi.back.pres hs, hi.gseq.pres hs,
+        hi.gclosed.pres hs⟩ h
 
 theorem Reach.inv {attrs : List Attr} {fs : List FState} {s : St} (h : Reach attrs fs s) : Inv s := by
   obtain ⟨os, ho⟩ := h
